@@ -95,7 +95,7 @@ Proof.
   - unfold do_win. destruct (_ >? _); cbn; now rewrite app_nil_r.
   - unfold do_cwin. destruct (_ >? _); cbn; now rewrite app_nil_r.
   - unfold do_rel. destruct (isSome _); cbn; now rewrite app_nil_r.
-  - cbn. now rewrite app_nil_r.
+  - unfold do_enable. destruct (isSome _); cbn; now rewrite app_nil_r.
   - unfold do_shutdown. destruct (_ && _); cbn; now rewrite app_nil_r.
 Qed.
 
